@@ -154,6 +154,9 @@ fn run() -> Result<(), Fail> {
             cur = Some(FnSpec { attrs: kv(rest), ..Default::default() });
             hdr_buf.clear();
             hdr_buf.push((*tl, format!("// ---- extracted: {}", rest)));
+            // loops see the facts established before them (immutable locals introduced by a refactoring must not break an invariant
+            // that cannot know their names)
+            hdr_buf.push((*tl, "#[verifier::loop_isolation(false)] #[verifier::allow_complex_invariants]".to_string()));
             continue;
         }
         if let Some(rest) = t.strip_prefix("//@closure ") {
